@@ -29,6 +29,10 @@ SAVE_PENDING = ("a node's result is published (set_node_result) before its artif
                 "a sibling lets run() return as soon as the output result exists and the still pending save of the output "
                 "node is cancelled, so a successful run ends without that artifact")
 
+CANCELLED_NEEDED = ("when a one-of candidate fails, the tasks its sub-pipeline started are cancelled; a cancelled node stays "
+                    "marked as processed without a result, so the next candidate, if it needs that node too, skips it and "
+                    "waits for its result forever")
+
 W1 = "v['r.D.want'] >= 1"
 SWX = "fails(v, 'X', 'Y')"
 T = []
@@ -47,6 +51,7 @@ add("C01", "rec_outside_reader_slow", ["schedule_dependent_value"], W1, OUTSIDE)
 add("C01", "rec_two_scopes", ["schedule_dependent_value"], W1, OUTSIDE)
 # C02
 add("C02", "oneof_with_switch_deep", ["deadlock"], "v['r.S.label0'] == 0 and v['r.X0.kind0'] == 1", SW_ONEOF)
+add("C02", "oneof_diamond_shared", ["deadlock"], "v['r.F.kind0'] == 1 and v['r.S.dur'] > v['r.F.dur']", CANCELLED_NEEDED)
 # C03
 add("C03", "oneof_with_switch", ["bad_arg_type:C1.v:NodeErr1"], SWX, SW_ONEOF)
 add("C03", "rec_outside_reader", ["arg:R.m"], W1, OUTSIDE)
@@ -63,6 +68,7 @@ add("C10", "oneof_with_switch_deep", ["bad_arg_type:C1.v:NodeErr1", "executed_un
 add("C10", "oneof_with_switch_deep", ["deadlock"], "v['r.S.label0'] == 0 and v['r.X0.kind0'] == 1", SW_ONEOF)
 add("C10", "oneof_reached_twice", ["unexpected_error:OneOfDoesNotHaveResultError", "error_on_computable_run:OneOfDoesNotHaveResultError"],
     "fails(v, 'C1') and fails(v, 'P')", NESTED_LOSER)
+add("C10", "oneof_diamond_shared", ["deadlock"], "v['r.F.kind0'] == 1 and v['r.S.dur'] > v['r.F.dur']", CANCELLED_NEEDED)
 # C11
 add("C11", "rec_with_switch", EAGER4, W1, REC_EAGER)
 add("C11", "rec_with_switch", ["unexpected_error:NodeErr1"], W1 + " and fails(v, 'X')", REC_EAGER)
@@ -78,6 +84,7 @@ for j in ("rec_simple", "rec_simple_default", "rec_inner_start"):
     add("C19", j, ["write_once_store_failed_correct_pipeline:processor__S"], W1, SAVE_EPOCH)
 add("C19", "switch_shared_case", ["write_once_store_failed_correct_pipeline:processor__X"], "v['r.S.label0'] == 0", SAVE_DUP)
 add("C19", "slow_collab_rhombus", ["not_saved:D"], "v['collab_dur'] >= 1", SAVE_PENDING)
+add("C19", "slow_collab_oneof_diamond_shared", ["not_saved:S", "not_saved:O"], "v['collab_dur'] >= 1", SAVE_PENDING)
 
 FIXED = [
  ("C05", "do not read Task.exception()", "CancelledError escaped from chart.run when a failing one-of branch cancelled pending sibling tasks (oneof_diamond: F fails while S is in flight)"),
